@@ -434,6 +434,8 @@ impl VersionManager {
             (1, 1)
         };
 
+        #[cfg(zipora_verif)]
+        crate::verif_hooks::yield_point(20);
 
         // Update statistics
         if let Ok(mut stats) = self.stats.lock() {
@@ -467,6 +469,8 @@ impl VersionManager {
 
         let start_time = Instant::now();
 
+        #[cfg(zipora_verif)]
+        crate::verif_hooks::yield_point(10);
         // Acquire version under lock for synchronized levels
         let (version, min_version) = if self.concurrency_level.requires_synchronization() {
             let _lock = self.token_chain_mutex.lock().map_err(|_| {
@@ -494,6 +498,8 @@ impl VersionManager {
             (1, 1)
         };
 
+        #[cfg(zipora_verif)]
+        crate::verif_hooks::yield_point(11);
 
         // Update statistics
         if let Ok(mut stats) = self.stats.lock() {
@@ -516,6 +522,8 @@ impl VersionManager {
     /// Internal method to release a reader token.
     fn release_reader_token(&self, token_version: u64) {
         self.active_readers.fetch_sub(1, Ordering::Relaxed);
+        #[cfg(zipora_verif)]
+        crate::verif_hooks::yield_point(40);
 
         // Update minimum version if this was the head token
         if self.concurrency_level.requires_synchronization() {
@@ -531,6 +539,8 @@ impl VersionManager {
     /// Internal method to release a writer token.
     fn release_writer_token(&self, token_version: u64) {
         self.active_writers.fetch_sub(1, Ordering::Relaxed);
+        #[cfg(zipora_verif)]
+        crate::verif_hooks::yield_point(41);
 
         // Update minimum version if this was the head token
         if self.concurrency_level.requires_synchronization() {
@@ -548,6 +558,8 @@ impl VersionManager {
     /// This is a simplified version - in a full implementation, this would
     /// track individual token versions in a linked list.
     fn try_advance_min_version(&self) {
+        #[cfg(zipora_verif)]
+        crate::verif_hooks::yield_point(30);
         // Token acquisition assigns the version and counts the token under this mutex, so
         // while it is held "no active tokens" cannot be invalidated before the store below.
         let _lock = match self.token_chain_mutex.lock() {
